@@ -57,6 +57,16 @@ static volatile int lock_word;
 static char fdir[512];
 static size_t fdir_len;
 
+/* engine E3 (scheduler for real threads), defined at the end of this file */
+static void e3_parse(const char *rest);
+static void e3_main_init(void);
+static void e3_entropy_point(void);
+static void e3_tail_request(void);
+static int e3_tid(void);
+static void e3_trace_add(int id);
+static int sched_on_flag(void);
+static long e3_steps(void);
+
 static long tids[64];
 static int ntids;
 
@@ -162,6 +172,8 @@ __attribute__((constructor)) static void simos_init(void) {
             case 'R': if (r_n < MAX_STEPS) parse_step(rest, &r_plan[r_n++]); break;
             case 'W': if (w_n < MAX_STEPS) parse_step(rest, &w_plan[w_n++]); break;
             case 'F': if (f_n < MAX_STEPS) parse_step(rest, &f_plan[f_n++]); break;
+            case 'S': e3_parse(rest); break;
+            case 'C': e3_trace_add((int)strtol(rest, NULL, 10)); break;
             default: break;
             }
         }
@@ -177,6 +189,7 @@ __attribute__((constructor)) static void simos_init(void) {
         }
     }
     active = 1;
+    e3_main_init();
 }
 
 int getentropy(void *buffer, size_t len) {
@@ -193,14 +206,16 @@ int getentropy(void *buffer, size_t len) {
     }
     char line[1200];
     char *p = line;
+    e3_entropy_point();
     lock();
     size_t seq = e_i++;
-    int tid = small_tid();
+    int tid = e3_tid();
+    if (tid < 0) tid = small_tid();
     struct step *st = NULL;
     const char *why = "plan";
     if (len > 256) why = "toolong";
     else if (seq < e_n) st = &e_plan[seq];
-    else if (have_tail) st = &tail;
+    else if (have_tail) { st = &tail; e3_tail_request(); }
     else why = "exhausted";
     *p++ = 'E'; *p++ = ' ';
     p = fmt_long(p, (long)seq); *p++ = ' ';
@@ -227,9 +242,11 @@ int getentropy(void *buffer, size_t len) {
         size_t wl = strlen(why); memcpy(p, why, wl); p += wl;
         ret = -1;
     }
+    if (sched_on_flag()) { *p++ = ' '; *p++ = '@'; p = fmt_long(p, e3_steps()); }
     *p++ = '\n';
     log_line(line, (size_t)(p - line));
     unlock();
+    e3_entropy_point();
     if (ret < 0) errno = err;
     return ret;
 }
@@ -323,3 +340,362 @@ ssize_t write(int fd, const void *buf, size_t count) {
     }
     return syscall(SYS_write, fd, buf, count);
 }
+
+/* ===========================================================================================
+ * Engine E3: a deterministic scheduler for the REAL binary's REAL threads.
+ *
+ * Enabled by an "S" line in the plan (S random|sticky|trace <seed> <param> <max_steps> <tail_request_bound>
+ * and, for "trace", C lines with the thread ids to run). Exactly one thread (the token holder) runs
+ * user code at any instant; every other thread is parked on its own condition variable inside this
+ * shim. The token moves only at intercepted calls, where a seeded PRNG (or the recorded trace) picks
+ * the next runnable thread:
+ *      pthread_create (after the child is registered), thread start, thread exit, pthread_join,
+ *      futex wait / wake as issued by Rust's std through libc's syscall() (Mutex, Condvar, park/unpark,
+ *      hence mpsc), sched_yield, nanosleep/clock_nanosleep, getentropy (before and after the fill).
+ * Futex wait/wake are implemented here (wait = block in the shim until a shim-level wake on the same
+ * address), so "who is runnable" is the simulator's own bookkeeping and never depends on the kernel.
+ * Timed waits and sleeps return at once and advance a simulated monotonic clock by the requested
+ * duration (clock_gettime is intercepted), so no real time enters the schedule.
+ * If no thread is runnable while some thread is blocked the run ends as a deadlock (exit 71).
+ *
+ * Log: "C <id>" at every decision with more than one runnable thread, "B <id>" thread born,
+ *      "F <id> <step>" thread finished, "X <reason> <steps> <hash>" at the end of a controlled run.
+ * =========================================================================================== */
+#include <dlfcn.h>
+#include <pthread.h>
+#include <stdarg.h>
+#include <time.h>
+#include <linux/futex.h>
+
+#define MAXT 160
+enum tstate { T_FREE, T_RUNNABLE, T_FUTEX, T_JOIN, T_FINISHED };
+struct thr {
+    pthread_t pt;
+    int state;
+    void *addr;
+    int join_target;
+    pthread_cond_t cv;
+    void *(*fn)(void *);
+    void *arg;
+};
+static struct thr T[MAXT];
+static int nthr, cur, sched_on;
+static pthread_mutex_t G = PTHREAD_MUTEX_INITIALIZER;
+static __thread int my_id = -1;
+static char s_policy[16];
+static unsigned long long s_rng[4];
+static long s_param, s_max_steps = 100000, s_tail_bound;
+static long s_steps, s_tail_requests;
+static int s_trace[MAX_STEPS];
+static size_t s_trace_n, s_trace_i;
+static unsigned long long s_hash = 0xcbf29ce484222325ULL;
+static long long sim_ns;
+
+static long raw6(long n, long a, long b, long c, long d, long e, long f) {
+    long ret;
+    register long r10 __asm__("r10") = d;
+    register long r8 __asm__("r8") = e;
+    register long r9 __asm__("r9") = f;
+    __asm__ volatile("syscall" : "=a"(ret) : "a"(n), "D"(a), "S"(b), "d"(c), "r"(r10), "r"(r8), "r"(r9) : "rcx", "r11", "memory");
+    return ret;
+}
+
+static unsigned long long sm64(unsigned long long *x) {
+    unsigned long long z = (*x += 0x9E3779B97F4A7C15ULL);
+    z = (z ^ (z >> 30)) * 0xBF58476D1CE4E5B9ULL;
+    z = (z ^ (z >> 27)) * 0x94D049BB133111EBULL;
+    return z ^ (z >> 31);
+}
+static unsigned long long rotl(unsigned long long x, int k) { return (x << k) | (x >> (64 - k)); }
+static unsigned long long rng_next(void) {
+    unsigned long long *s = s_rng;
+    unsigned long long result = rotl(s[1] * 5, 7) * 9, t = s[1] << 17;
+    s[2] ^= s[0]; s[3] ^= s[1]; s[1] ^= s[2]; s[0] ^= s[3]; s[2] ^= t; s[3] = rotl(s[3], 45);
+    return result;
+}
+static void hash_byte(unsigned char b) { s_hash ^= b; s_hash *= 0x100000001B3ULL; }
+
+static void e3_log2(const char *tag, long a, long b) {
+    char line[96]; char *p = line;
+    while (*tag) *p++ = *tag++;
+    *p++ = ' '; p = fmt_long(p, a);
+    if (b >= 0) { *p++ = ' '; p = fmt_long(p, b); }
+    *p++ = '\n';
+    if (log_fd >= 0) raw6(SYS_write, log_fd, (long)line, p - line, 0, 0, 0);
+}
+
+static void e3_end(const char *reason, int code) {
+    char line[128]; char *p = line;
+    *p++ = 'X'; *p++ = ' ';
+    while (*reason) *p++ = *reason++;
+    *p++ = ' '; p = fmt_long(p, s_steps); *p++ = ' ';
+    p = fmt_hex(p, (unsigned char *)&s_hash, 8); *p++ = '\n';
+    if (log_fd >= 0) raw6(SYS_write, log_fd, (long)line, p - line, 0, 0, 0);
+    if (code >= 0) raw6(SYS_exit_group, code, 0, 0, 0, 0, 0);
+}
+
+static void e3_parse(const char *rest) {
+    /* S <policy> <seed> <param> <max_steps> <tail_bound> */
+    size_t i = 0;
+    while (rest[i] && rest[i] != ' ' && i < sizeof s_policy - 1) { s_policy[i] = rest[i]; i++; }
+    s_policy[i] = 0;
+    char *end;
+    unsigned long long seed = strtoull(rest + i, &end, 10);
+    s_param = strtol(end, &end, 10);
+    long ms = strtol(end, &end, 10);
+    if (ms > 0) s_max_steps = ms;
+    s_tail_bound = strtol(end, &end, 10);
+    for (int k = 0; k < 4; k++) s_rng[k] = sm64(&seed);
+    sched_on = 1;
+}
+
+/* must hold G. yielding: the caller asked to be descheduled (sched_yield, sleep, timed wait) */
+static int pick_next(int yielding) {
+    int ids[MAXT], n = 0;
+    for (int i = 0; i < nthr; i++) if (T[i].state == T_RUNNABLE) ids[n++] = i;
+    if (n == 0) return -1;
+    if (++s_steps > s_max_steps) e3_end("budget", 72);
+    int cur_ok = cur >= 0 && cur < nthr && T[cur].state == T_RUNNABLE;
+    int chosen;
+    if (n == 1) chosen = ids[0];
+    else {
+        if (!strcmp(s_policy, "trace")) {
+            int want = s_trace_i < s_trace_n ? s_trace[s_trace_i] : -1;
+            s_trace_i++;
+            chosen = -1;
+            for (int i = 0; i < n; i++) if (ids[i] == want) chosen = want;
+            if (chosen < 0) chosen = cur_ok ? cur : ids[0];
+        } else if (!strcmp(s_policy, "sticky") && cur_ok && !yielding && (long)(rng_next() % 256) < s_param) {
+            chosen = cur;
+        } else {
+            chosen = ids[rng_next() % (unsigned)n];
+        }
+        e3_log2("C", chosen, -1);
+    }
+    for (int i = 0; i < n; i++) hash_byte((unsigned char)ids[i]);
+    hash_byte(0xfe); hash_byte((unsigned char)chosen);
+    return chosen;
+}
+
+/* must hold G; returns holding G with the token */
+static void switch_to(int next) {
+    int me = my_id;
+    cur = next;
+    if (next != me) {
+        pthread_cond_signal(&T[next].cv);
+        while (cur != me || T[me].state != T_RUNNABLE) pthread_cond_wait(&T[me].cv, &G);
+    }
+}
+
+static void deadlock_exit(void) {
+    char line[256]; char *p = line;
+    memcpy(p, "D blocked", 9); p += 9;
+    for (int i = 0; i < nthr; i++)
+        if (T[i].state == T_FUTEX || T[i].state == T_JOIN) { *p++ = ' '; p = fmt_long(p, i); }
+    *p++ = '\n';
+    if (log_fd >= 0) raw6(SYS_write, log_fd, (long)line, p - line, 0, 0, 0);
+    e3_end("deadlock", 71);
+}
+
+static int e3_controlled(void) { return sched_on && my_id >= 0 && T[my_id].state != T_FINISHED; }
+
+static void sched_point(int yielding) {
+    pthread_mutex_lock(&G);
+    int next = pick_next(yielding);
+    if (next < 0) deadlock_exit();
+    switch_to(next);
+    pthread_mutex_unlock(&G);
+}
+
+static void block_on(int state, void *addr, int target) {
+    /* G held */
+    int me = my_id;
+    T[me].state = state; T[me].addr = addr; T[me].join_target = target;
+    int next = pick_next(0);
+    if (next < 0) deadlock_exit();
+    switch_to(next);
+}
+
+static void *e3_tramp(void *p) {
+    struct thr *t = p;
+    my_id = (int)(t - T);
+    pthread_mutex_lock(&G);
+    while (cur != my_id) pthread_cond_wait(&t->cv, &G);
+    pthread_mutex_unlock(&G);
+    void *r = t->fn(t->arg);
+    pthread_mutex_lock(&G);
+    t->state = T_FINISHED;
+    e3_log2("F", my_id, s_steps);
+    for (int i = 0; i < nthr; i++)
+        if (T[i].state == T_JOIN && T[i].join_target == my_id) T[i].state = T_RUNNABLE;
+    int next = pick_next(0);
+    if (next < 0) {
+        int blocked = 0;
+        for (int i = 0; i < nthr; i++) if (T[i].state == T_FUTEX || T[i].state == T_JOIN) blocked = 1;
+        if (blocked) deadlock_exit();
+    } else {
+        cur = next;
+        pthread_cond_signal(&T[next].cv);
+    }
+    pthread_mutex_unlock(&G);
+    return r;
+}
+
+int pthread_create(pthread_t *thread, const pthread_attr_t *attr, void *(*fn)(void *), void *arg) {
+    static int (*real)(pthread_t *, const pthread_attr_t *, void *(*)(void *), void *);
+    if (!real) real = dlsym(RTLD_NEXT, "pthread_create");
+    if (!e3_controlled()) return real(thread, attr, fn, arg);
+    pthread_mutex_lock(&G);
+    if (nthr >= MAXT) { pthread_mutex_unlock(&G); errno = EAGAIN; return EAGAIN; }
+    int id = nthr++;
+    T[id].state = T_RUNNABLE; T[id].fn = fn; T[id].arg = arg;
+    pthread_cond_init(&T[id].cv, NULL);
+    e3_log2("B", id, -1);
+    pthread_mutex_unlock(&G);
+    int rc = real(thread, attr, e3_tramp, &T[id]);
+    pthread_mutex_lock(&G);
+    if (rc != 0) T[id].state = T_FINISHED; else T[id].pt = *thread;
+    pthread_mutex_unlock(&G);
+    sched_point(0);
+    return rc;
+}
+
+int pthread_join(pthread_t pt, void **ret) {
+    static int (*real)(pthread_t, void **);
+    if (!real) real = dlsym(RTLD_NEXT, "pthread_join");
+    if (e3_controlled()) {
+        pthread_mutex_lock(&G);
+        int id = -1;
+        for (int i = 1; i < nthr; i++) if (T[i].state != T_FREE && pthread_equal(T[i].pt, pt)) id = i;
+        if (id >= 0 && T[id].state != T_FINISHED) block_on(T_JOIN, NULL, id);
+        pthread_mutex_unlock(&G);
+        if (id >= 0) sched_point(0);
+    }
+    return real(pt, ret);
+}
+
+static long e3_futex(int *uaddr, int op, int val, const struct timespec *timeout) {
+    int cmd = op & 127 & ~FUTEX_CLOCK_REALTIME;
+    if (cmd == FUTEX_WAIT || cmd == FUTEX_WAIT_BITSET) {
+        pthread_mutex_lock(&G);
+        if (__atomic_load_n(uaddr, __ATOMIC_SEQ_CST) != val) { pthread_mutex_unlock(&G); errno = EAGAIN; return -1; }
+        if (timeout) {
+            /* timed wait: the timer fires (simulated clock jumps), after the others had a turn */
+            if (cmd == FUTEX_WAIT) sim_ns += timeout->tv_sec * 1000000000LL + timeout->tv_nsec;
+            else {
+                long long abs_ns = timeout->tv_sec * 1000000000LL + timeout->tv_nsec;
+                struct timespec now; clock_gettime((op & FUTEX_CLOCK_REALTIME) ? CLOCK_REALTIME : CLOCK_MONOTONIC, &now);
+                long long now_ns = now.tv_sec * 1000000000LL + now.tv_nsec;
+                if (abs_ns > now_ns) sim_ns += abs_ns - now_ns;
+            }
+            int next = pick_next(1);
+            if (next < 0) deadlock_exit();
+            switch_to(next);
+            pthread_mutex_unlock(&G);
+            errno = ETIMEDOUT;
+            return -1;
+        }
+        block_on(T_FUTEX, uaddr, -1);
+        pthread_mutex_unlock(&G);
+        return 0;
+    }
+    if (cmd == FUTEX_WAKE || cmd == FUTEX_WAKE_BITSET) {
+        pthread_mutex_lock(&G);
+        int woken = 0;
+        for (int i = 0; i < nthr && woken < val; i++)
+            if (T[i].state == T_FUTEX && T[i].addr == (void *)uaddr) { T[i].state = T_RUNNABLE; woken++; }
+        int next = pick_next(0);
+        if (next < 0) deadlock_exit();
+        switch_to(next);
+        pthread_mutex_unlock(&G);
+        return woken;
+    }
+    return -2; /* not modelled: pass through */
+}
+
+long syscall(long number, ...) {
+    va_list ap;
+    va_start(ap, number);
+    long a = va_arg(ap, long), b = va_arg(ap, long), c = va_arg(ap, long), d = va_arg(ap, long), e = va_arg(ap, long), f = va_arg(ap, long);
+    va_end(ap);
+    if (number == SYS_futex && e3_controlled()) {
+        long r = e3_futex((int *)a, (int)b, (int)c, (const struct timespec *)d);
+        if (r != -2) return r;
+    }
+    long ret = raw6(number, a, b, c, d, e, f);
+    if (ret < 0 && ret > -4096) { errno = (int)-ret; return -1; }
+    return ret;
+}
+
+int sched_yield(void) {
+    if (e3_controlled()) { sched_point(1); return 0; }
+    return (int)raw6(SYS_sched_yield, 0, 0, 0, 0, 0, 0);
+}
+
+int nanosleep(const struct timespec *req, struct timespec *rem) {
+    if (e3_controlled()) {
+        pthread_mutex_lock(&G);
+        if (req) sim_ns += req->tv_sec * 1000000000LL + req->tv_nsec;
+        pthread_mutex_unlock(&G);
+        sched_point(1);
+        if (rem) { rem->tv_sec = 0; rem->tv_nsec = 0; }
+        return 0;
+    }
+    long r = raw6(SYS_nanosleep, (long)req, (long)rem, 0, 0, 0, 0);
+    if (r < 0) { errno = (int)-r; return -1; }
+    return 0;
+}
+
+int clock_nanosleep(clockid_t clk, int flags, const struct timespec *req, struct timespec *rem) {
+    if (e3_controlled()) {
+        pthread_mutex_lock(&G);
+        if (req) {
+            long long ns = req->tv_sec * 1000000000LL + req->tv_nsec;
+            if (flags & TIMER_ABSTIME) {
+                struct timespec now; clock_gettime(clk, &now);
+                long long now_ns = now.tv_sec * 1000000000LL + now.tv_nsec;
+                if (ns > now_ns) sim_ns += ns - now_ns;
+            } else sim_ns += ns;
+        }
+        pthread_mutex_unlock(&G);
+        sched_point(1);
+        return 0;
+    }
+    long r = raw6(SYS_clock_nanosleep, clk, flags, (long)req, (long)rem, 0, 0);
+    return r < 0 ? (int)-r : 0;
+}
+
+int clock_gettime(clockid_t clk, struct timespec *ts) {
+    long r = raw6(SYS_clock_gettime, clk, (long)ts, 0, 0, 0, 0);
+    if (r < 0) { errno = (int)-r; return -1; }
+    if (sched_on) {
+        /* simulated time: a fixed epoch plus what timed waits and sleeps consumed */
+        long long ns = 1000000000LL * 1000 + sim_ns;
+        ts->tv_sec = ns / 1000000000LL;
+        ts->tv_nsec = ns % 1000000000LL;
+    }
+    return 0;
+}
+
+/* called from getentropy() around the device's action */
+static void e3_entropy_point(void) { if (e3_controlled()) sched_point(0); }
+static void e3_tail_request(void) {
+    if (!sched_on || !s_tail_bound) return;
+    if (++s_tail_requests > s_tail_bound) e3_end("liveness", 73);
+}
+__attribute__((destructor)) static void e3_fini(void) {
+    /* normal process exit (exit() on some thread): record how far the schedule got */
+    if (sched_on) e3_end("exit", -1);
+}
+
+static void e3_main_init(void) {
+    if (!sched_on) return;
+    my_id = 0; nthr = 1; cur = 0;
+    T[0].state = T_RUNNABLE; T[0].pt = pthread_self();
+    pthread_cond_init(&T[0].cv, NULL);
+}
+
+static int e3_tid(void) { return sched_on ? my_id : -1; }
+static void e3_trace_add(int id) { if (s_trace_n < MAX_STEPS) s_trace[s_trace_n++] = id; }
+static int sched_on_flag(void) { return sched_on; }
+static long e3_steps(void) { return s_steps; }
